@@ -676,6 +676,9 @@ func trunc200(b []byte) []byte {
 type byzCase struct {
 	name string
 	mk   func(c *sim.Cluster) (*hg.WireEvent, uint32, bool)
+	// sig != nil: validator 1 itself is the adversary: its next (otherwise regular) self-event carries this
+	// block signature; it reaches the target through a regular exchange
+	sig *hg.BlockSignature
 }
 
 func byzCases() []byzCase {
@@ -734,6 +737,18 @@ func byzCases() []byzCase {
 			}
 		}
 	}
+	// an admissible event of a validator whose block-signature payload is hostile
+	for _, sg := range []struct {
+		name, sig string
+		index int
+	}{
+		{"a signature string without separator", "abc", 1}, {"a signature string with three parts", "1|2|3", 1}, {"an empty signature string", "", 1},
+		{"a signature string \"|\"", "|", 1}, {"a non-numeric signature string", "zz|1", 1}, {"a well-formed but wrong signature", "1|1", 1},
+		{"a well-formed but wrong signature for a block far in the future", "1|1", 1 << 30}, {"a malformed signature for a negative block index", "abc", -5},
+	} {
+		cases = append(cases, byzCase{name: "regular event of validator 1 carrying " + sg.name + fmt.Sprintf(" (block %d)", sg.index),
+			sig: &hg.BlockSignature{Validator: sim.PubOf(1), Index: sg.index, Signature: sg.sig}})
+	}
 	return cases
 }
 
@@ -754,7 +769,18 @@ func runByz(it HostileItem, res *HostileResult) {
 		for _, via := range []string{"eager-sync request", "sync response"} {
 			x := c08Build(it.State)
 			c := x.C
-			w, from, ok := bc.mk(c)
+			var w *hg.WireEvent
+			var from uint32
+			ok := true
+			if bc.sig != nil {
+				if via != "eager-sync request" {
+					x.Close()
+					continue
+				}
+				via = "validator 1's regular gossip"
+			} else {
+				w, from, ok = bc.mk(c)
+			}
 			if !ok {
 				x.Close()
 				continue
@@ -763,7 +789,10 @@ func runByz(it HostileItem, res *HostileResult) {
 			fmt.Fprintf(os.Stderr, "ATTEMPT byz %s via %s\n", bc.name, via)
 			cd := commitsDigest(c.Nodes[0])
 			rp := map[string]interface{}{"state": it.State, "kind": "byz", "case": bc.name, "via": via}
-			if via == "eager-sync request" {
+			if bc.sig != nil {
+				c.Nodes[1].Node.VSelfSigPool().Add(*bc.sig)
+				x.Step(sched.Action{K: "G", A: 1, B: 0})
+			} else if via == "eager-sync request" {
 				c.ProcessRPC(0, "byz eager", &net.EagerSyncRequest{FromID: from, Events: []hg.WireEvent{*w}})
 			} else {
 				plan := &sim.Plan{MutateResp: func(kind string, resp interface{}) interface{} {
@@ -788,6 +817,9 @@ func runByz(it HostileItem, res *HostileResult) {
 			}
 			// afterwards valid exchanges must work (they do on a twin that never saw the message) and new work commits
 			twin := c08Build(it.State)
+			if bc.sig != nil {
+				twin.Step(sched.Action{K: "G", A: 1, B: 0})
+			}
 			for _, a := range cont {
 				e1 := x.Step(a)
 				e2 := twin.Step(a)
